@@ -90,6 +90,12 @@ CLAIMS = {
             'Trusted: vg/solve/fsign/skeleton modules, 13 reviewed exception sites (sfa/e_ready.py EXCEPTIONS). Not decided: overflow to inf from large finite inputs, NaN from cancellation. '
             'Thresholds are for concrete N in the stated range only.',
             'DESIGN.md §5 C08', 'E2/E3/E7'),
+    'C13': ('other', 'static analysis: term matching modulo commutativity, joint case analysis of registers, two-step symbolic composition on the value graph',
+            'WelfordRolling: n := n+1, mean correction divided by the post-update count, cross term uses pre- and post-update mean, population sqrt(s/n); '
+            'Drawdown: per joint case of (peak, trough, max) the peak is the running max, the trough is reset on a new peak, max drawdown is the running max of '
+            '(peak−trough)/peak of the updated registers; LnReturn: update(x1);update(x2);last() = Some(ln(x2/x1)) from any prior state.',
+            'Trusted: sfa/vg.py and the case expansion. Not decided: equality with the batch definition as a value, error growth over long streams.',
+            'DESIGN.md §5 C13', 'E5'),
 }
 
 NOT_APPLICABLE = {
